@@ -25,21 +25,32 @@ type edit struct {
 
 // injectLoops returns overlay contents for the source files of one package
 // directory that contain functions with loop specifications.
-func injectLoops(repo, rel string, items []*Item, warn func(string)) (map[string][]byte, error) {
+// injRange: the line range of a function that received injected specifications,
+// with the contract items they came from (used to attribute type errors of the
+// injected text to those items: the contract is then stale, not the run broken).
+type injRange struct {
+	path           string
+	startLn, endLn int
+	items          []*Item
+}
+
+func injectLoops(repo, rel string, items []*Item, warn func(string), ranges *[]injRange) (map[string][]byte, error) {
 	dir := filepath.Join(repo, rel)
 	ents, err := os.ReadDir(dir)
 	if err != nil {
 		return nil, err
 	}
 	want := map[string]*Item{}
+	origs := map[string][]*Item{}
 	for _, it := range items {
-		if it.Kind != "func" || (len(it.Loops) == 0 && len(it.Ghosts) == 0) {
+		if it.Kind != "func" || (len(it.Loops) == 0 && len(it.Ghosts) == 0) || it.Stale != "" {
 			continue
 		}
 		key := it.Name
 		if it.Recv != "" {
 			key = it.Recv + "." + it.Name
 		}
+		origs[key] = append(origs[key], it)
 		if old, ok := want[key]; ok {
 			// merge specs from several items on the same function
 			old.Loops = append(old.Loops, it.Loops...)
@@ -84,6 +95,9 @@ func injectLoops(repo, rel string, items []*Item, warn func(string)) (map[string
 				continue
 			}
 			found[key] = true
+			if ranges != nil {
+				*ranges = append(*ranges, injRange{path: path, startLn: fset.Position(fd.Pos()).Line, endLn: fset.Position(fd.End()).Line, items: origs[key]})
+			}
 			// loops in source order
 			var loops []ast.Stmt
 			ast.Inspect(fd.Body, func(nd ast.Node) bool {
@@ -188,7 +202,7 @@ func injectLoops(repo, rel string, items []*Item, warn func(string)) (map[string
 					sep = "; "
 				}
 				stmt := ghostStmt(g.Stmt, it.Logical)
-				edits = append(edits, edit{off: p, end: p, text: sep + stmt + "; "})
+				edits = append(edits, edit{off: p, end: p, text: sep + "if verifspec.GhostOn() { " + stmt + " }; "})
 			}
 		}
 		if len(edits) == 0 {
